@@ -42,6 +42,13 @@ Theorem C14D_single_def : forall f, single_def_check f = true -> NoDup (map fst 
 Proof. exact single_def_sound. Qed.
 Print Assumptions C14D_single_def.
 
+Theorem C14D_dfg_check_sound : forall f vars outs ins, dfg_check f vars outs ins = true ->
+  forall x, In x vars ->
+  (forall s, In s (flat_map snd (filter (fun p => N.eqb (fst p) x) ins)) <-> In s (use_sites f x)) /\
+  (forall s, In (x, s) outs -> exists l, def_sites f x = l ++ [s]).
+Proof. exact dfg_check_sound. Qed.
+Print Assumptions C14D_dfg_check_sound.
+
 (* non-vacuity: a loop in SSA form
      0: %0 = ..; jmp 1
      1: %1 = phi [0: %0] [2: %3]; %2 = lt %1; jnz %2, 2, 3
